@@ -351,3 +351,35 @@ Proof.
   intros [f [pl [pre m]]]. unfold encode_Route. cbn [enc Route_c depc pairc fst snd].
   rewrite prefix_body_enc. reflexivity.
 Qed.
+
+(** * FrameReader.Read (streaming entry point) *)
+
+(** the payload buffer is allocated only after the header's length field has
+    passed the limit check: at most MaxPayloadSize bytes, whatever the stream holds *)
+Lemma frame_read_alloc_bounded : forall b, frame_read_alloc b <= max_payload.
+Proof.
+  intros b. unfold frame_read_alloc, decode_Header.
+  destruct (lenN b <? header_size); [unfold max_payload; lia|].
+  destruct (dec Header_c b) as [[[t [fl [len sid]]] r]|]; [|unfold max_payload; lia].
+  destruct (max_payload <? len) eqn:E; [unfold max_payload; lia|]. apply N.ltb_ge in E. exact E.
+Qed.
+
+(** a frame the buffer decoder accepts is read identically from a stream *)
+Lemma frame_read_agrees : forall b f, decode_Frame b = DOk f -> decode_FrameRead b = DOk f.
+Proof.
+  intros b f D. unfold decode_Frame in D. unfold decode_FrameRead.
+  destruct (decode_Header b) as [[t [fl [len sid]]]|c|] eqn:H; try discriminate.
+  assert (L : (lenN b <? header_size) = false).
+  { unfold decode_Header in H. destruct (lenN b <? header_size); [discriminate|reflexivity]. }
+  rewrite L. destruct (lenN b <? header_size + len); [discriminate|].
+  destruct (takeN len (dropN header_size b)) as [[p q]|]; [exact D|discriminate].
+Qed.
+
+Lemma frame_read_never_panics : forall b, decode_FrameRead b <> DPanic.
+Proof.
+  intros b. unfold decode_FrameRead, decode_Header.
+  destruct (lenN b <? header_size); [discriminate|].
+  destruct (dec Header_c b) as [[[t [fl [len sid]]] r]|]; [|discriminate].
+  destruct (max_payload <? len); [discriminate|].
+  destruct (takeN len (dropN header_size b)) as [[p q]|]; discriminate.
+Qed.
